@@ -309,6 +309,59 @@ def rand_seq(rng, libdir):
     return ('seq', [hdr(builtins, cross, libdir)] + ops)
 
 
+# kind -> (declared value, a second valid value, extra values to try as a later set)
+YKINDS = {
+    's': ('x', 'y', [True, 5]),
+    'b': (True, False, ['maybe', 'true']),
+    kint(0, 10): (7, 9, [11, '3']),
+    kint(0, 5): (3, 5, [7]),
+    kint(None, None): (100, -4, []),
+    kcombo(['a', 'b', 'c', 'enabled', 'auto']): ('c', 'enabled', ['zz', 'auto']),
+    kcombo(['a', 'b']): ('a', 'b', ['c']),
+    kcombo(['enabled', 'disabled', 'auto']): ('auto', 'enabled', []),
+    karr(['a', 'b', 'c']): (['c'], ['a', 'b'], ['zz']),
+    karr(['a']): (['a'], [], [['c']]),
+    karr(None): (['q'], ['zz', 'c'], []),
+    'f': ('enabled', 'disabled', ['on']),
+}
+
+
+def yield_grid():
+    out = []
+    kinds = list(YKINDS)
+    for ck in kinds:
+        cv = YKINDS[ck][0]
+        for y in (True, False):
+            out.append(dict(o='yield', pk=None, ck=ck, cv=eval_(cv), y=y))
+            for pk in kinds:
+                pv, pv2, extra = YKINDS[pk]
+                base = dict(o='yield', pk=pk, pv=eval_(pv), ck=ck, cv=eval_(cv), y=y)
+                out.append(dict(base))
+                for nv in [pv2] + extra:
+                    out.append(dict(base, set=eval_(nv)))
+                out.append(dict(base, set_child=eval_(YKINDS[ck][1])))
+                out.append(dict(base, set=eval_(pv2), set_child=eval_(YKINDS[ck][1]), cross=True))
+    return out
+
+
+def yield_seq(sc, libdir):
+    """the same scenario as an operation sequence for the model/implementation correspondence"""
+    r, s_ = ekey('yopt', ''), ekey('yopt', SUB)
+    ops = []
+    if sc.get('pk') is not None:
+        ops.append(S1.join(['ap', r, sc['pk'], sc['pv'], 'F', 'F', 'n']))
+    ops.append(S1.join(['ap', s_, sc['ck'], sc['cv'], 'T' if sc['y'] else 'F', 'F', 'n']))
+    ops.append(op_get(s_))
+    if 'set' in sc and sc.get('pk') is not None:
+        ops.append(S1.join(['su', r, sc['set'], 'F']))
+        ops.append(op_get(s_))
+    if 'set_child' in sc:
+        ops.append(S1.join(['set', s_, sc['set_child'], 'F']))
+        ops.append(op_get(s_))
+    ops += [op_get(r), 'dump']
+    return ('seq', [hdr(True, sc.get('cross', False), libdir)] + ops)
+
+
 def corpus(libdir):
     H, HC, H0 = hdr(True, False, libdir), hdr(True, True, libdir), hdr(False, False, libdir)
     g = lambda n, s=None, b=False: ekey(n, s, b)
@@ -523,6 +576,13 @@ def run(ctx):
     nseq = 40000 if thorough else 5000
     for _ in range(nseq):
         cases.append(rand_seq(rng, libdir))
+    # ---- yielding grid (all ordered pairs of kinds); an exception in the middle is part of the observable,
+    #      so every prefix of the sequence is played as its own case
+    for sc in yield_grid():
+        fn, args = yield_seq(sc, libdir)
+        cases.append((fn, args))
+        if 'set' in sc:
+            cases.append((fn, args[:-4] + args[-2:]))      # without the failing/succeeding set of the parent
     # ---- validate_value cells: every kind x junk/valid values
     for kind in KINDS + [kint(2, None), kint(-1, 2), kcombo(LETTERS)]:
         for v in JUNK:
@@ -585,6 +645,12 @@ def run(ctx):
     for b in stored_bad:
         ctx.violation('C07:stored_invalid:' + json.dumps(b['keys']), 'a stored option value violates its type/choices/range: %s' % b['keys'],
                       {'case': ['seq', b['seq']], 'failure': b})
+    # ---- yielding: every ordered pair of option kinds (parent, child), incl. same type with different
+    #      choices / ranges and the subclass pair feature/combo, with and without yield, parent absent,
+    #      parent or child changed afterwards
+    ygrid = yield_grid()
+    ctx.extra['yield_pairs'] = len(ygrid)
+    scen += ygrid
     # buildtype and prefix scenarios (exhaustive over sources)
     for bt in ['plain', 'debug', 'debugoptimized', 'release', 'minsize', 'custom']:
         for sb in ('p', 'mf', 'cl'):
@@ -608,6 +674,10 @@ def run(ctx):
     for f in res:
         sc = f.get('scenario', {})
         ident = 'C07:%s:%s' % (f['kind'], json.dumps(sc, sort_keys=True))
+        if f['kind'] == 'effective_value_valid' and f.get('same_type') and f.get('yielding'):
+            # documented behaviour (the subproject sees the superproject's value) collides with the
+            # option's own choices/range: one finding for the whole class of inputs
+            ident = 'C07:yielding-value-outside-own-choices'
         ctx.violation(ident, 'property clause %s fails on the implementation: %s'
                       % (f['kind'], json.dumps({k: v for k, v in f.items() if k != 'scenario'})), {'oracle': sc, 'failure': f})
 
